@@ -81,7 +81,7 @@ pub open spec fn as_num(v: SV) -> Option<real> {
 }
 pub uninterp spec fn flatten_seq(l: Seq<ExprValue>) -> Seq<ExprValue>;
 pub open spec fn flatten_sv(v: SV) -> Seq<ExprValue> { match v { SV::V(e) => seq![e], SV::L(l) => flatten_seq(l) } }
-pub uninterp spec fn lookup_spec(ctx: Ctx, checked: Seq<String>, name: Seq<char>) -> Option<SV>;
+pub uninterp spec fn lookup_spec(ctx: Ctx, checked: Seq<String>, depth: nat, name: Seq<char>) -> Option<SV>;
 pub uninterp spec fn elref_spec(ctx: Ctx, name: Seq<char>) -> Option<SV>;
 pub uninterp spec fn parse_fn(name: Seq<char>) -> Option<Function>;
 pub uninterp spec fn fn_oracle(ctx: Ctx, pos: int, fun: Function, args: SV) -> Option<SV>;
@@ -145,20 +145,23 @@ pub open spec fn logic(op: LogicalOp, a: bool, b: bool) -> bool {
 }
 pub open spec fn num(x: real) -> SV { SV::V(ExprValue::Number(mk(x))) }
 
-pub struct Env { pub ctx: Ctx, pub checked: Seq<String> }
+pub struct Env { pub ctx: Ctx, pub checked: Seq<String>, pub depth: nat }
+/// src/expression.rs: `const MAX_EVAL_DEPTH: usize = 100;` (pinned by the //@item below)
+pub open spec fn max_depth() -> nat { MAX_EVAL_DEPTH as nat }
+pub open spec fn deeper(env: Env) -> Env { Env { depth: env.depth + 1, ..env } }
 pub type SRes = Option<(SV, int)>;
 
-// measure: (tokens left, rank). ranks: primary 0 < fold_factor 1 < factor 2 < fold_term 3 < term 4 < comparison 5
-//          < fold_logical 6 < logical 7 < fold_list 8 < expr_list 9
+// measure: (tokens left, rank). ranks: primary_inner 0 < primary 1 < fold_factor 2 < factor 3 < fold_term 4 < term 5 < comparison 6
+//          < fold_logical 7 < logical 8 < fold_list 9 < expr_list 10
 #[verifier::opaque]
-pub open spec fn s_primary(t: Seq<Token>, i: int, env: Env) -> SRes
+pub open spec fn s_primary_inner(t: Seq<Token>, i: int, env: Env) -> SRes
     decreases t.len() - i, 0int
 {
     if i < 0 || i >= t.len() { None } else {
         match t[i] {
             Token::Number(x) => Some((SV::V(ExprValue::Number(x)), i + 1)),
             Token::String(s) => Some((SV::V(ExprValue::String(s)), i + 1)),
-            Token::Var(v) => match lookup_spec(env.ctx, env.checked, v@) { Some(e) => Some((e, i + 1)), None => None },
+            Token::Var(v) => match lookup_spec(env.ctx, env.checked, env.depth, v@) { Some(e) => Some((e, i + 1)), None => None },
             Token::ElementRef(v) => match elref_spec(env.ctx, v@) { Some(e) => Some((e, i + 1)), None => None },
             Token::OpenParen => match s_expr_list(t, i + 1, env) {
                 Some((e, j)) => if j < t.len() && t[j] is CloseParen { Some((e, j + 1)) } else { None },
@@ -180,10 +183,18 @@ pub open spec fn s_primary(t: Seq<Token>, i: int, env: Env) -> SRes
         }
     }
 }
+/// every primary is one nesting level: beyond MAX_EVAL_DEPTH levels (parentheses, unary minus, function
+/// calls, and variable references, which carry the depth into the nested evaluation) it is an error
+#[verifier::opaque]
+pub open spec fn s_primary(t: Seq<Token>, i: int, env: Env) -> SRes
+    decreases t.len() - i, 1int
+{
+    if env.depth >= max_depth() { None } else { s_primary_inner(t, i, deeper(env)) }
+}
 /// `* / %` left to right over primaries; `%` is the Euclidean (non-negative) remainder
 #[verifier::opaque]
 pub open spec fn fold_factor(t: Seq<Token>, i: int, acc: real, env: Env) -> SRes
-    decreases t.len() - i, 1int
+    decreases t.len() - i, 2int
 {
     if 0 <= i < t.len() && (t[i] is Mul || t[i] is Div || t[i] is Mod) {
         match s_primary(t, i + 1, env) {
@@ -195,7 +206,7 @@ pub open spec fn fold_factor(t: Seq<Token>, i: int, acc: real, env: Env) -> SRes
 }
 #[verifier::opaque]
 pub open spec fn s_factor(t: Seq<Token>, i: int, env: Env) -> SRes
-    decreases t.len() - i, 2int
+    decreases t.len() - i, 3int
 {
     match s_primary(t, i, env) {
         Some((f, j)) => match as_num(f) { Some(e) => if i < j <= t.len() { fold_factor(t, j, e, env) } else { None }, None => Some((f, j)) },
@@ -204,7 +215,7 @@ pub open spec fn s_factor(t: Seq<Token>, i: int, env: Env) -> SRes
 /// `+ -` left to right over factors (so `* / %` bind tighter)
 #[verifier::opaque]
 pub open spec fn fold_term(t: Seq<Token>, i: int, acc: real, env: Env) -> SRes
-    decreases t.len() - i, 3int
+    decreases t.len() - i, 4int
 {
     if 0 <= i < t.len() && (t[i] is Add || t[i] is Sub) {
         match s_factor(t, i + 1, env) {
@@ -216,7 +227,7 @@ pub open spec fn fold_term(t: Seq<Token>, i: int, acc: real, env: Env) -> SRes
 }
 #[verifier::opaque]
 pub open spec fn s_term(t: Seq<Token>, i: int, env: Env) -> SRes
-    decreases t.len() - i, 4int
+    decreases t.len() - i, 5int
 {
     match s_factor(t, i, env) {
         Some((f, j)) => match as_num(f) { Some(e) => if i < j <= t.len() { fold_term(t, j, e, env) } else { None }, None => Some((f, j)) },
@@ -225,7 +236,7 @@ pub open spec fn s_term(t: Seq<Token>, i: int, env: Env) -> SRes
 /// at most one comparison (non-associative), yielding exactly 0 or 1
 #[verifier::opaque]
 pub open spec fn s_comparison(t: Seq<Token>, i: int, env: Env) -> SRes
-    decreases t.len() - i, 5int
+    decreases t.len() - i, 6int
 {
     match s_term(t, i, env) {
         Some((v, j)) => match as_num(v) {
@@ -243,7 +254,7 @@ pub open spec fn s_comparison(t: Seq<Token>, i: int, env: Env) -> SRes
 /// `and or xor` left to right on truthiness, both operands always evaluated
 #[verifier::opaque]
 pub open spec fn fold_logical(t: Seq<Token>, i: int, e: SV, env: Env) -> SRes
-    decreases t.len() - i, 6int
+    decreases t.len() - i, 7int
 {
     if 0 <= i < t.len() && t[i] is Symbol && log_op(t[i]->Symbol_0@) is Some {
         match s_comparison(t, i + 1, env) {
@@ -255,7 +266,7 @@ pub open spec fn fold_logical(t: Seq<Token>, i: int, e: SV, env: Env) -> SRes
 }
 #[verifier::opaque]
 pub open spec fn s_logical(t: Seq<Token>, i: int, env: Env) -> SRes
-    decreases t.len() - i, 7int
+    decreases t.len() - i, 8int
 {
     match s_comparison(t, i, env) {
         Some((e, j)) => if i < j <= t.len() { fold_logical(t, j, e, env) } else { None },
@@ -264,7 +275,7 @@ pub open spec fn s_logical(t: Seq<Token>, i: int, env: Env) -> SRes
 /// comma separated expressions, flattened into one list
 #[verifier::opaque]
 pub open spec fn fold_list(t: Seq<Token>, i: int, out: Seq<ExprValue>, env: Env) -> SRes
-    decreases t.len() - i, 8int
+    decreases t.len() - i, 9int
 {
     match s_logical(t, i, env) {
         Some((e, j)) => {
@@ -275,7 +286,7 @@ pub open spec fn fold_list(t: Seq<Token>, i: int, out: Seq<ExprValue>, env: Env)
 }
 #[verifier::opaque]
 pub open spec fn s_expr_list(t: Seq<Token>, i: int, env: Env) -> SRes
-    decreases t.len() - i, 9int
+    decreases t.len() - i, 10int
 {
     if 0 < i < t.len() && t[i - 1] is OpenParen && t[i] is CloseParen { Some((SV::L(Seq::empty()), i)) }
     else { fold_list(t, i, Seq::empty(), env) }
@@ -283,13 +294,13 @@ pub open spec fn s_expr_list(t: Seq<Token>, i: int, env: Env) -> SRes
 
 
 // definition lemmas: one unfolding of each (opaque) semantic function at chosen arguments
-pub proof fn def_s_primary(t: Seq<Token>, i: int, env: Env)
-    ensures s_primary(t, i, env) == ({
+pub proof fn def_s_primary_inner(t: Seq<Token>, i: int, env: Env)
+    ensures s_primary_inner(t, i, env) == ({
     if i < 0 || i >= t.len() { None } else {
         match t[i] {
             Token::Number(x) => Some((SV::V(ExprValue::Number(x)), i + 1)),
             Token::String(s) => Some((SV::V(ExprValue::String(s)), i + 1)),
-            Token::Var(v) => match lookup_spec(env.ctx, env.checked, v@) { Some(e) => Some((e, i + 1)), None => None },
+            Token::Var(v) => match lookup_spec(env.ctx, env.checked, env.depth, v@) { Some(e) => Some((e, i + 1)), None => None },
             Token::ElementRef(v) => match elref_spec(env.ctx, v@) { Some(e) => Some((e, i + 1)), None => None },
             Token::OpenParen => match s_expr_list(t, i + 1, env) {
                 Some((e, j)) => if j < t.len() && t[j] is CloseParen { Some((e, j + 1)) } else { None },
@@ -311,7 +322,11 @@ pub proof fn def_s_primary(t: Seq<Token>, i: int, env: Env)
         }
     }
     })
-{ reveal(s_primary); reveal(fold_factor); reveal(s_factor); reveal(fold_term); reveal(s_term); reveal(s_comparison); reveal(fold_logical); reveal(s_logical); reveal(fold_list); reveal(s_expr_list); }
+{ reveal(s_primary); reveal(s_primary_inner); reveal(fold_factor); reveal(s_factor); reveal(fold_term); reveal(s_term); reveal(s_comparison); reveal(fold_logical); reveal(s_logical); reveal(fold_list); reveal(s_expr_list); }
+
+pub proof fn def_s_primary(t: Seq<Token>, i: int, env: Env)
+    ensures s_primary(t, i, env) == (if env.depth >= max_depth() { None } else { s_primary_inner(t, i, deeper(env)) })
+{ reveal(s_primary); reveal(s_primary_inner); reveal(fold_factor); reveal(s_factor); reveal(fold_term); reveal(s_term); reveal(s_comparison); reveal(fold_logical); reveal(s_logical); reveal(fold_list); reveal(s_expr_list); }
 
 pub proof fn def_fold_factor(t: Seq<Token>, i: int, acc: real, env: Env)
     ensures fold_factor(t, i, acc, env) == ({
@@ -323,7 +338,7 @@ pub proof fn def_fold_factor(t: Seq<Token>, i: int, acc: real, env: Env)
             None => None }
     } else { Some((num(acc), i)) }
     })
-{ reveal(s_primary); reveal(fold_factor); reveal(s_factor); reveal(fold_term); reveal(s_term); reveal(s_comparison); reveal(fold_logical); reveal(s_logical); reveal(fold_list); reveal(s_expr_list); }
+{ reveal(s_primary); reveal(s_primary_inner); reveal(fold_factor); reveal(s_factor); reveal(fold_term); reveal(s_term); reveal(s_comparison); reveal(fold_logical); reveal(s_logical); reveal(fold_list); reveal(s_expr_list); }
 
 pub proof fn def_s_factor(t: Seq<Token>, i: int, env: Env)
     ensures s_factor(t, i, env) == ({
@@ -331,7 +346,7 @@ pub proof fn def_s_factor(t: Seq<Token>, i: int, env: Env)
         Some((f, j)) => match as_num(f) { Some(e) => if i < j <= t.len() { fold_factor(t, j, e, env) } else { None }, None => Some((f, j)) },
         None => None }
     })
-{ reveal(s_primary); reveal(fold_factor); reveal(s_factor); reveal(fold_term); reveal(s_term); reveal(s_comparison); reveal(fold_logical); reveal(s_logical); reveal(fold_list); reveal(s_expr_list); }
+{ reveal(s_primary); reveal(s_primary_inner); reveal(fold_factor); reveal(s_factor); reveal(fold_term); reveal(s_term); reveal(s_comparison); reveal(fold_logical); reveal(s_logical); reveal(fold_list); reveal(s_expr_list); }
 
 pub proof fn def_fold_term(t: Seq<Token>, i: int, acc: real, env: Env)
     ensures fold_term(t, i, acc, env) == ({
@@ -343,7 +358,7 @@ pub proof fn def_fold_term(t: Seq<Token>, i: int, acc: real, env: Env)
             None => None }
     } else { Some((num(acc), i)) }
     })
-{ reveal(s_primary); reveal(fold_factor); reveal(s_factor); reveal(fold_term); reveal(s_term); reveal(s_comparison); reveal(fold_logical); reveal(s_logical); reveal(fold_list); reveal(s_expr_list); }
+{ reveal(s_primary); reveal(s_primary_inner); reveal(fold_factor); reveal(s_factor); reveal(fold_term); reveal(s_term); reveal(s_comparison); reveal(fold_logical); reveal(s_logical); reveal(fold_list); reveal(s_expr_list); }
 
 pub proof fn def_s_term(t: Seq<Token>, i: int, env: Env)
     ensures s_term(t, i, env) == ({
@@ -351,7 +366,7 @@ pub proof fn def_s_term(t: Seq<Token>, i: int, env: Env)
         Some((f, j)) => match as_num(f) { Some(e) => if i < j <= t.len() { fold_term(t, j, e, env) } else { None }, None => Some((f, j)) },
         None => None }
     })
-{ reveal(s_primary); reveal(fold_factor); reveal(s_factor); reveal(fold_term); reveal(s_term); reveal(s_comparison); reveal(fold_logical); reveal(s_logical); reveal(fold_list); reveal(s_expr_list); }
+{ reveal(s_primary); reveal(s_primary_inner); reveal(fold_factor); reveal(s_factor); reveal(fold_term); reveal(s_term); reveal(s_comparison); reveal(fold_logical); reveal(s_logical); reveal(fold_list); reveal(s_expr_list); }
 
 pub proof fn def_s_comparison(t: Seq<Token>, i: int, env: Env)
     ensures s_comparison(t, i, env) == ({
@@ -368,7 +383,7 @@ pub proof fn def_s_comparison(t: Seq<Token>, i: int, env: Env)
                 } else { Some((num(first), j)) } },
         None => None }
     })
-{ reveal(s_primary); reveal(fold_factor); reveal(s_factor); reveal(fold_term); reveal(s_term); reveal(s_comparison); reveal(fold_logical); reveal(s_logical); reveal(fold_list); reveal(s_expr_list); }
+{ reveal(s_primary); reveal(s_primary_inner); reveal(fold_factor); reveal(s_factor); reveal(fold_term); reveal(s_term); reveal(s_comparison); reveal(fold_logical); reveal(s_logical); reveal(fold_list); reveal(s_expr_list); }
 
 pub open spec fn fold_logical_body(t: Seq<Token>, i: int, e: SV, env: Env) -> SRes {
     if 0 <= i < t.len() && t[i] is Symbol && log_op(t[i]->Symbol_0@) is Some {
@@ -381,7 +396,7 @@ pub open spec fn fold_logical_body(t: Seq<Token>, i: int, e: SV, env: Env) -> SR
 }
 pub proof fn def_fold_logical(t: Seq<Token>, i: int, e: SV, env: Env)
     ensures fold_logical(t, i, e, env) == fold_logical_body(t, i, e, env)
-{ reveal(s_primary); reveal(fold_factor); reveal(s_factor); reveal(fold_term); reveal(s_term); reveal(s_comparison); reveal(fold_logical); reveal(s_logical); reveal(fold_list); reveal(s_expr_list); }
+{ reveal(s_primary); reveal(s_primary_inner); reveal(fold_factor); reveal(s_factor); reveal(fold_term); reveal(s_term); reveal(s_comparison); reveal(fold_logical); reveal(s_logical); reveal(fold_list); reveal(s_expr_list); }
 
 pub proof fn def_s_logical(t: Seq<Token>, i: int, env: Env)
     ensures s_logical(t, i, env) == ({
@@ -389,7 +404,7 @@ pub proof fn def_s_logical(t: Seq<Token>, i: int, env: Env)
         Some((e, j)) => if i < j <= t.len() { fold_logical(t, j, e, env) } else { None },
         None => None }
     })
-{ reveal(s_primary); reveal(fold_factor); reveal(s_factor); reveal(fold_term); reveal(s_term); reveal(s_comparison); reveal(fold_logical); reveal(s_logical); reveal(fold_list); reveal(s_expr_list); }
+{ reveal(s_primary); reveal(s_primary_inner); reveal(fold_factor); reveal(s_factor); reveal(fold_term); reveal(s_term); reveal(s_comparison); reveal(fold_logical); reveal(s_logical); reveal(fold_list); reveal(s_expr_list); }
 
 pub proof fn def_fold_list(t: Seq<Token>, i: int, out: Seq<ExprValue>, env: Env)
     ensures fold_list(t, i, out, env) == ({
@@ -400,20 +415,20 @@ pub proof fn def_fold_list(t: Seq<Token>, i: int, out: Seq<ExprValue>, env: Env)
             else { Some((SV::L(out2), j)) } },
         None => None }
     })
-{ reveal(s_primary); reveal(fold_factor); reveal(s_factor); reveal(fold_term); reveal(s_term); reveal(s_comparison); reveal(fold_logical); reveal(s_logical); reveal(fold_list); reveal(s_expr_list); }
+{ reveal(s_primary); reveal(s_primary_inner); reveal(fold_factor); reveal(s_factor); reveal(fold_term); reveal(s_term); reveal(s_comparison); reveal(fold_logical); reveal(s_logical); reveal(fold_list); reveal(s_expr_list); }
 
 pub proof fn def_s_expr_list(t: Seq<Token>, i: int, env: Env)
     ensures s_expr_list(t, i, env) == ({
     if 0 < i < t.len() && t[i - 1] is OpenParen && t[i] is CloseParen { Some((SV::L(Seq::empty()), i)) }
     else { fold_list(t, i, Seq::empty(), env) }
     })
-{ reveal(s_primary); reveal(fold_factor); reveal(s_factor); reveal(fold_term); reveal(s_term); reveal(s_comparison); reveal(fold_logical); reveal(s_logical); reveal(fold_list); reveal(s_expr_list); }
+{ reveal(s_primary); reveal(s_primary_inner); reveal(fold_factor); reveal(s_factor); reveal(fold_term); reveal(s_term); reveal(s_comparison); reveal(fold_logical); reveal(s_logical); reveal(fold_list); reveal(s_expr_list); }
 
 // ------------------------------------------------------------------------------ the real evaluator
-pub open spec fn env_of(es: EvalState) -> Env { Env { ctx: *es.context, checked: es.checked_vars@ } }
+pub open spec fn env_of(es: EvalState) -> Env { Env { ctx: *es.context, checked: es.checked_vars@, depth: es.depth as nat } }
 /// cursor frame: a level only moves the index
 pub open spec fn same_input(pre: EvalState, post: EvalState) -> bool {
-    post.tokens == pre.tokens && post.context == pre.context && post.checked_vars == pre.checked_vars
+    post.tokens == pre.tokens && post.context == pre.context && post.checked_vars == pre.checked_vars && post.depth == pre.depth
 }
 /// the contract shared by every level: value and final position are the semantics'
 pub open spec fn level_post(pre: EvalState, post: EvalState, r: Result<ExprValue>, sem: SRes) -> bool {
@@ -460,8 +475,8 @@ impl<'a> EvalState<'a> {
 
     #[verifier::external_body]
     fn lookup(&mut self, v: &str) -> (r: Result<ExprValue>)
-        ensures r is Ok ==> *final(self) == *old(self),
-            (match lookup_spec(*old(self).context, old(self).checked_vars@, v@) { Some(e) => r is Ok && sv_of(r->Ok_0) == e, None => r is Err }),
+        ensures r is Ok ==> *final(self) == *old(self), final(self).depth == old(self).depth,
+            (match lookup_spec(*old(self).context, old(self).checked_vars@, old(self).depth as nat, v@) { Some(e) => r is Ok && sv_of(r->Ok_0) == e, None => r is Err }),
     { unimplemented!() }
     #[verifier::external_body]
     fn element_ref(&self, v: &str) -> (r: Result<ExprValue>)
@@ -482,18 +497,38 @@ impl LogicalOp {
 //@end
 }
 
-//@item src/expression.rs :: fn primary
+//@item src/expression.rs :: fn primary_inner
 //@ body-start
-//@ | proof { def_s_primary(eval_state.tokens@, eval_state.index as int, env_of(*eval_state)); }
+//@ | proof { def_s_primary_inner(eval_state.tokens@, eval_state.index as int, env_of(*eval_state)); }
 //@ replace[R-parse] <<<fun.parse::<Function>()?>>> => <<<Function::from_str(&fun)?>>>
 //@ requires
 //@ - old(eval_state).index <= old(eval_state).tokens@.len()
+//@ - 0 < old(eval_state).depth <= MAX_EVAL_DEPTH
 //@ ensures
-//@ - level_post(*old(eval_state), *final(eval_state), r, s_primary(old(eval_state).tokens@, old(eval_state).index as int, env_of(*old(eval_state))))     @@C14.primary.sem @@C14.unary @@C14.paren
+//@ - level_post(*old(eval_state), *final(eval_state), r, s_primary_inner(old(eval_state).tokens@, old(eval_state).index as int, env_of(*old(eval_state))))     @@C14.primary.sem @@C14.unary @@C14.paren
 //@ - r is Ok ==> final(eval_state).index > old(eval_state).index     @@C01.expr.primary_progress
+//@ - final(eval_state).depth == old(eval_state).depth     @@C01.expr.depth_restored
 //@ decreases
 //@ - old(eval_state).tokens@.len() - old(eval_state).index
 //@ - 0int
+//@end
+
+//@item src/expression.rs :: const MAX_EVAL_DEPTH
+//@end
+//@item src/expression.rs :: fn primary
+//@ body-start
+//@ | proof { def_s_primary(eval_state.tokens@, eval_state.index as int, env_of(*eval_state)); }
+//@ requires
+//@ - old(eval_state).index <= old(eval_state).tokens@.len()
+//@ - old(eval_state).depth <= MAX_EVAL_DEPTH
+//@ ensures
+//@ - level_post(*old(eval_state), *final(eval_state), r, s_primary(old(eval_state).tokens@, old(eval_state).index as int, env_of(*old(eval_state))))     @@C14.primary.sem @@C14.unary @@C14.paren
+//@ - r is Ok ==> final(eval_state).index > old(eval_state).index     @@C01.expr.primary_progress
+//@ - final(eval_state).depth == old(eval_state).depth     @@C01.expr.depth_restored
+//@ - old(eval_state).depth >= MAX_EVAL_DEPTH ==> r is Err     @@C01.expr.nesting_bounded
+//@ decreases
+//@ - old(eval_state).tokens@.len() - old(eval_state).index
+//@ - 1int
 //@end
 
 //@item src/expression.rs :: fn factor
@@ -501,17 +536,20 @@ impl LogicalOp {
 //@ | proof { def_s_factor(eval_state.tokens@, eval_state.index as int, env_of(*eval_state)); }
 //@ requires
 //@ - old(eval_state).index <= old(eval_state).tokens@.len()
+//@ - old(eval_state).depth <= MAX_EVAL_DEPTH
 //@ ensures
+//@ - final(eval_state).depth == old(eval_state).depth     @@C01.expr.depth_restored
 //@ - level_post(*old(eval_state), *final(eval_state), r, s_factor(old(eval_state).tokens@, old(eval_state).index as int, env_of(*old(eval_state))))     @@C14.factor.fold @@C14.mod.nonneg
 //@ - r is Ok ==> final(eval_state).index > old(eval_state).index
 //@ decreases
 //@ - old(eval_state).tokens@.len() - old(eval_state).index
-//@ - 2int
+//@ - 3int
 //@ loop 1
 //@ body-start
 //@ | proof { def_fold_factor(eval_state.tokens@, eval_state.index as int, val(e), env_of(*eval_state)); }
 //@ invariant
 //@ - same_input(*old(eval_state), *eval_state)
+//@ - eval_state.depth <= MAX_EVAL_DEPTH
 //@ - old(eval_state).index < eval_state.index <= eval_state.tokens@.len()
 //@ - fold_factor(eval_state.tokens@, eval_state.index as int, val(e), env_of(*eval_state)) == s_factor(old(eval_state).tokens@, old(eval_state).index as int, env_of(*old(eval_state)))     @@C14.factor.fold.loop
 //@ ensures
@@ -525,17 +563,20 @@ impl LogicalOp {
 //@ | proof { def_s_term(eval_state.tokens@, eval_state.index as int, env_of(*eval_state)); }
 //@ requires
 //@ - old(eval_state).index <= old(eval_state).tokens@.len()
+//@ - old(eval_state).depth <= MAX_EVAL_DEPTH
 //@ ensures
+//@ - final(eval_state).depth == old(eval_state).depth     @@C01.expr.depth_restored
 //@ - level_post(*old(eval_state), *final(eval_state), r, s_term(old(eval_state).tokens@, old(eval_state).index as int, env_of(*old(eval_state))))     @@C14.term.fold
 //@ - r is Ok ==> final(eval_state).index > old(eval_state).index
 //@ decreases
 //@ - old(eval_state).tokens@.len() - old(eval_state).index
-//@ - 4int
+//@ - 5int
 //@ loop 1
 //@ body-start
 //@ | proof { def_fold_term(eval_state.tokens@, eval_state.index as int, val(e), env_of(*eval_state)); }
 //@ invariant
 //@ - same_input(*old(eval_state), *eval_state)
+//@ - eval_state.depth <= MAX_EVAL_DEPTH
 //@ - old(eval_state).index < eval_state.index <= eval_state.tokens@.len()
 //@ - fold_term(eval_state.tokens@, eval_state.index as int, val(e), env_of(*eval_state)) == s_term(old(eval_state).tokens@, old(eval_state).index as int, env_of(*old(eval_state)))     @@C14.term.fold.loop
 //@ ensures
@@ -551,12 +592,14 @@ impl LogicalOp {
 //@ replace[R-cast] <<<comp as i32 as f32>>> => <<<r32_from_bool(comp)>>>
 //@ requires
 //@ - old(eval_state).index <= old(eval_state).tokens@.len()
+//@ - old(eval_state).depth <= MAX_EVAL_DEPTH
 //@ ensures
+//@ - final(eval_state).depth == old(eval_state).depth     @@C01.expr.depth_restored
 //@ - level_post(*old(eval_state), *final(eval_state), r, s_comparison(old(eval_state).tokens@, old(eval_state).index as int, env_of(*old(eval_state))))     @@C14.cmp.bool
 //@ - r is Ok ==> final(eval_state).index > old(eval_state).index
 //@ decreases
 //@ - old(eval_state).tokens@.len() - old(eval_state).index
-//@ - 5int
+//@ - 6int
 //@end
 
 //@item src/expression.rs :: fn logical
@@ -569,15 +612,18 @@ impl LogicalOp {
 //@ | proof { def_fold_logical(eval_state.tokens@, eval_state.index as int, sv_of(e), env_of(*eval_state)); }
 //@ requires
 //@ - old(eval_state).index <= old(eval_state).tokens@.len()
+//@ - old(eval_state).depth <= MAX_EVAL_DEPTH
 //@ ensures
+//@ - final(eval_state).depth == old(eval_state).depth     @@C01.expr.depth_restored
 //@ - level_post(*old(eval_state), *final(eval_state), r, s_logical(old(eval_state).tokens@, old(eval_state).index as int, env_of(*old(eval_state))))     @@C14.logic.fold
 //@ - r is Ok ==> final(eval_state).index > old(eval_state).index
 //@ decreases
 //@ - old(eval_state).tokens@.len() - old(eval_state).index
-//@ - 7int
+//@ - 8int
 //@ loop 1
 //@ invariant
 //@ - same_input(*old(eval_state), *eval_state)
+//@ - eval_state.depth <= MAX_EVAL_DEPTH
 //@ - old(eval_state).index < eval_state.index <= eval_state.tokens@.len()
 //@ - fold_logical(eval_state.tokens@, eval_state.index as int, sv_of(e), env_of(*eval_state)) == fold_logical_body(eval_state.tokens@, eval_state.index as int, sv_of(e), env_of(*eval_state))
 //@ - fold_logical(eval_state.tokens@, eval_state.index as int, sv_of(e), env_of(*eval_state)) == s_logical(old(eval_state).tokens@, old(eval_state).index as int, env_of(*old(eval_state)))     @@C14.logic.fold.loop
@@ -590,12 +636,14 @@ impl LogicalOp {
 //@item src/expression.rs :: fn expr
 //@ requires
 //@ - old(eval_state).index <= old(eval_state).tokens@.len()
+//@ - old(eval_state).depth <= MAX_EVAL_DEPTH
 //@ ensures
+//@ - final(eval_state).depth == old(eval_state).depth     @@C01.expr.depth_restored
 //@ - level_post(*old(eval_state), *final(eval_state), r, s_logical(old(eval_state).tokens@, old(eval_state).index as int, env_of(*old(eval_state))))
 //@ - r is Ok ==> final(eval_state).index > old(eval_state).index
 //@ decreases
 //@ - old(eval_state).tokens@.len() - old(eval_state).index
-//@ - 8int
+//@ - 9int
 //@end
 
 //@item src/expression.rs :: fn expr_list
@@ -604,12 +652,14 @@ impl LogicalOp {
 //@ replace[R-extend] <<<out.extend(e.flatten());>>> => <<<vec_extend(&mut out, e.flatten());>>>
 //@ requires
 //@ - old(eval_state).index <= old(eval_state).tokens@.len()
+//@ - old(eval_state).depth <= MAX_EVAL_DEPTH
 //@ ensures
+//@ - final(eval_state).depth == old(eval_state).depth     @@C01.expr.depth_restored
 //@ - level_post(*old(eval_state), *final(eval_state), r, s_expr_list(old(eval_state).tokens@, old(eval_state).index as int, env_of(*old(eval_state))))     @@C14.list.flat
 //@ - r is Ok ==> final(eval_state).index >= old(eval_state).index
 //@ decreases
 //@ - old(eval_state).tokens@.len() - old(eval_state).index
-//@ - 9int
+//@ - 10int
 //@ loop 1
 //@ body-start
 //@ | proof { def_fold_list(eval_state.tokens@, eval_state.index as int, out@, env_of(*eval_state)); }
@@ -617,6 +667,7 @@ impl LogicalOp {
 //@ - fold_list(eval_state.tokens@, eval_state.index as int, out@, env_of(*eval_state)) == s_expr_list(old(eval_state).tokens@, old(eval_state).index as int, env_of(*old(eval_state)))     @@C14.list.flat.loop
 //@ invariant
 //@ - same_input(*old(eval_state), *eval_state)
+//@ - eval_state.depth <= MAX_EVAL_DEPTH
 //@ - old(eval_state).index <= eval_state.index <= eval_state.tokens@.len()
 //@ ensures
 //@ - s_expr_list(old(eval_state).tokens@, old(eval_state).index as int, env_of(*old(eval_state))) == Some((SV::L(out@), eval_state.index as int))
@@ -627,7 +678,7 @@ impl LogicalOp {
 /// R-ctor: EvalState::new(tokens, context, checked_vars) (generic IntoIterator + collect)
 #[verifier::external_body]
 pub fn new_eval_state<'a>(tokens: Vec<Token>, context: &'a Ctx, checked_vars: &[String]) -> (r: EvalState<'a>)
-    ensures r.tokens@ == tokens@, r.index == 0, r.context == context, r.checked_vars@ == checked_vars@
+    ensures r.tokens@ == tokens@, r.index == 0, r.context == context, r.checked_vars@ == checked_vars@, r.depth == 0
 { unimplemented!() }
 
 //@item src/expression.rs :: fn evaluate_inner
@@ -635,7 +686,7 @@ pub fn new_eval_state<'a>(tokens: Vec<Token>, context: &'a Ctx, checked_vars: &[
 //@ replace[R-opaque-type] <<<context: &impl ContextView,>>> => <<<context: &Ctx,>>>
 //@ replace[R-ctor] <<<EvalState::new(tokens.clone(), context, checked_vars)>>> => <<<new_eval_state(tokens, context, checked_vars)>>>
 //@ ensures
-//@ - (match s_expr_list(tokens@, 0, Env { ctx: *context, checked: checked_vars@ }) {
+//@ - (match s_expr_list(tokens@, 0, Env { ctx: *context, checked: checked_vars@, depth: 0 }) {
 //@      Some((v, j)) => if j == tokens@.len() { r is Ok && sv_of(r->Ok_0) == v } else { r is Err },
 //@      None => r is Err })     @@C14.trailing
 //@end
